@@ -286,7 +286,7 @@ func boundarySweep(c *Ctx, small bool, emit func(*TypeCase, reflect.Value, strin
 		for n := 100; n < 140; n++ {
 			lens = append(lens, n)
 		}
-		for n := 16360; n < 16400; n++ {
+		for n := 16360; n < 16400 && !small; n++ {
 			big = append(big, n)
 		}
 	}
